@@ -127,6 +127,22 @@ def derive_variant(rng, spec, how):
                     if rng.random() < 0.5:
                         e[1] = _perturb_numbers(rng, e[1])
         return s
+    if how == "without-species-overrides":
+        # the same model without its [Species] overrides of built-in elements (entries an invented label needs are kept):
+        # per-species state left behind by the first model shows in the second
+        changed = False
+        for sec in s["sections"]:
+            if sec["name"] == "Species":
+                keep = []
+                for e in sec["entries"]:
+                    label = e[0].split(".")[0].strip()
+                    if label in mg.REAL_SPECIES:
+                        changed = True
+                    else:
+                        keep.append(e)
+                sec["entries"] = keep
+        s["sections"] = [sec for sec in s["sections"] if not (sec["name"] == "Species" and not sec["entries"])]
+        return s if changed else None
     if how == "other-helper":
         # everything textually identical except the helper that `outer` calls
         pf = mg.get_section(s, "Potential-Form")
@@ -240,6 +256,9 @@ def gen_scenario(seed, tier="quick"):
     while len(models) < nmodels and guard < 20:
         guard += 1
         how = rng.choice(["retarget", "same-names-other-formulas", "same-names-other-formulas", "pair-from-eam", "independent", "identical"])
+        if (not api_pool) and base["meta"]["kind"] != "pair" and "without-species-overrides" not in tags and \
+                any(sec["name"] == "Species" and any(e[0].split(".")[0].strip() in mg.REAL_SPECIES for e in sec["entries"]) for sec in base["sections"]):
+            how = "without-species-overrides"
         if api_pool:
             how = rng.choice(["independent", "identical"])
         if helper and "other-helper" not in tags:
@@ -257,8 +276,11 @@ def gen_scenario(seed, tier="quick"):
             m = mg.gen_model(rng, o2)
         elif how == "identical":
             m = copy.deepcopy(rng.choice(models))
-        elif how == "other-helper":
+        elif how in ("other-helper", "without-species-overrides"):
             m = derive_variant(rng, base, how)
+            if m is None and how == "without-species-overrides":
+                how = "identical"
+                m = copy.deepcopy(base)
         else:
             m = derive_variant(rng, rng.choice(models), how)
         if m is None:
